@@ -294,6 +294,27 @@ fn c03_intersection_count() {
     std::mem::forget(ds);
 }
 
+/// count_including_deleted on a 4-way intersection (two `others`), dense block-bitset path:
+/// = |A ∩ B ∩ C ∩ D|. Every clause must filter, also the ones behind the second.
+#[kani::proof]
+#[kani::unwind(5)]
+fn c03_intersection4_count_dense() {
+    let mk = || {
+        let docs: [DocId; N] = kani::any();
+        kani::assume(docs[0] < docs[1] && docs[1] < 32);
+        Arr { docs, len: 2, cur: 0 }
+    };
+    let (a, b, c, d) = (mk(), mk(), mk(), mk());
+    // 32 documents: every lead is dense enough for the block path (size_hint * 32 >= 32)
+    let mut ds = Intersection::new(vec![cs(a, 1.0), cs(b, 1.0), cs(c, 1.0), cs(d, 1.0)], 32);
+    let inall = |x: DocId| a.contains(x) && b.contains(x) && c.contains(x) && d.contains(x);
+    let exp = (inall(a.docs[0]) as u32) + (inall(a.docs[1]) as u32);
+    let got = ds.count_including_deleted();
+    assert_eq!(got, exp);
+    kani::cover!(got == 1 && a.docs[0] == b.docs[0] && b.docs[0] == c.docs[0] && c.docs[0] != d.docs[0] && c.docs[0] != d.docs[1], "the last clause filters");
+    std::mem::forget(ds);
+}
+
 // ---------------------------------------------------------------------------------------------
 // Exclude
 // ---------------------------------------------------------------------------------------------
